@@ -12,6 +12,27 @@ CHECKS = {
     "C01": ("E2", "bounded-exhaustive enumeration of all programs up to K statements (small-scope model checking) against a reference interpreter",
             "Every program with up to K statement nodes (nesting <= 3) over a scoping-revealing alphabet, under every device answer history in {0,1,2}^4 where bounds are read from the device and three signal lists, is run through the real parser/binder/iterator and compared row by row with a reference interpreter. Exhaustive within those bounds; nothing is sampled.",
             "Trusts the reference interpreter (harness/src/refsem.rs) and the small-scope hypothesis; programs whose reference run exceeds 40 rows / 600 steps are out of scope.", "6/C01"),
+    "C02": ("E1", "explicit-state model checking (stateright BFS) of the iterator/driver protocol: call log vs yielded items after every transition",
+            "All sequences of up to 4 (thorough 5) row statements from an 11-row menu (plain, C, X, Z, failing expression, repeat) at loop depth 0/1, and all feedback programs of the C04 alphabet under every answer history, for drivers that do and do not override write_input. After every next() the driver's own call log must account for exactly: the constructor call with all defaults, one call per yielded row carrying the row's inputs verbatim (flags included), output-reading iff the row has outputs, none for expression-error items, none after the end (also on repeated calls).",
+            "The oracle uses only the subject's items and the driver's log; the reference interpreter only predicts which kind of call comes next so that the script can be built.", "6/C02"),
+    "C03": ("E1", "explicit-state model checking (stateright BFS) over signal-list orders x fixed output layouts x per-call answers; oracle = the driver's own record + X/Z truth table",
+            "6 signal-list orders x all 16 layouts (every ordered subset of three output-capable signals incl. a 64-bit one and a bidirectional one) x per-call answers from {0,5,15,-1,MAX,MIN,Z,X} per supplied signal (layered graph: every pair of consecutive answers is a transition). Every checked row must report for each signal exactly what the driver returned for it in that call (X if unsupplied), in signal-list order, and check()/is_checked()/failing_outputs() must follow the X/Z rules for expected values cycling through X, Z, 0, 5, -1, MAX.",
+            "Quick tier uses {0,-1,Z,X} for three-signal layouts; thorough the full menu.", "6/C03"),
+    "C04": ("E1", "explicit-state model checking (stateright BFS) of feedback programs under every history of device answers, lock-step with the reference interpreter, states de-duplicated on (real iterator key, reference continuation)",
+            "Every program up to 3 (thorough 4) statements over the feedback alphabet (reads in rows, let, loop and repeat bounds, while conditions, clocked rows, a variable shadowing the signal, a self-referential let) that binds, x 2 signal lists x 2 driver variants x 3 layouts (full, omitting each read output), with every output-reading call answering Q in {0,1,2,Z,X} x DONE in {0,1}. Each item must equal the reference interpreter fed the same answers: values come from the latest output-reading call, mid-clock answers are never read, variables shadow signals (also after an error item when the caller carries on), Z/X reads are error items, a missing read output fails construction after exactly one call.",
+            "De-duplication soundness: DESIGN 5.1; thorough re-explores a slice without merging. Mismatches on device-read loop bounds are attributed to C01 when the literal program fails equally.", "6/C04"),
+    "C10": ("E2", "bounded-exhaustive enumeration of a targeted hostile space (dangerous expression x position x boundary operands x widths x driver behaviours) and re-used program corpora under a never-panics / error-item-where-predicted oracle",
+            "One dangerous expression (all of / % + - * << >> unary- over 19^2 boundary operand pairs read from the device or as literals; random with bounds -1..3; signExt; variables assigned only in unexecuted while bodies; counters pushed to MAX; bits(0), bits(64)) in each of 8 expression positions for signal widths 1, 2, 63, 64 on input, output and bidirectional signals; drivers returning Z/X, omitting a read output, failing at each call index; the whole C01/C18 program space up to 3 statements under 7 hostile constant answers; every (program, signal list) pair of the C11 menu that with_signals accepts. No panic from construction, next(), vars() or static iteration; division by zero, unassigned variable, empty random range, unimplemented function and Z/X reads are error items exactly where the reference predicts; everything else yields rows.",
+            "Item kinds only (values are C08's); each run observed for 8 next() calls.", "6/C10"),
+    "C13": ("E1", "explicit-state model checking (stateright BFS) with fault/deviation injection at every call index (deviation budget 1), caller carries on after the error",
+            "12 curated programs (flat, clock rows, X+C, loop, device reads, virtual signal, bidirectional, no output in the header, permuted lists) x every first layout (each subset of the outputs, and reversed) x 2 driver variants; at every call the driver may fail (constructor, output-reading, write-only) or depart from its first layout in every listed way (drop each entry, empty answer, append foreign/copy/unsupplied, duplicate over either neighbour, swap, substitute at every position). The very error value must come back from try_iter or as the item of exactly that row; all items before equal the fault-free reference run; a deviating answer at a checked row yields an error item; every returned row anywhere attributes to each signal only a value the driver reported for that signal in that call.",
+            "One deviation per history is complete for callers that stop at the first error; the exploration also carries on to check later rows.", "6/C13"),
+    "C14": ("E1", "explicit-state model checking (stateright BFS) of programs with declarations under every per-call answer pair, lock-step with the reference interpreter",
+            "Every declaration set (V in {none, Q+1, Q*2+R, 7, (Q<<60)} x W in {none, !R, Q=R}) x 5 placements x 5 shadowing variants x 4 headers that bind, x 2 driver variants, every output-reading call answering (Q,R) in {0,1,2,Z,X}^2, caller carrying on after error items. In every checked row each declaration appears after the real outputs as a 64-bit entry whose value is the expression over this call's answer with variables invisible and whose expected value is its column's entry or X; a Z/X operand makes exactly that next() an error item (never at construction, never a panic).",
+            "Virtual entries are matched by name (their mutual order is C15's).", "6/C14"),
+    "C15": ("E1", "exhaustive enumeration of hash-map drain orders through the H3 seam; explicit-state model checking (stateright BFS) of interleaved iterators; bounded-exhaustive static-vs-dynamic comparison",
+            "(1) All k! x k! x k! drain orders of the parser's three HashMaps for programs with up to three C columns, read outputs and declarations: parsed tests, bound tests, signal order, row streams and binding errors must equal the identity order. (2) All interleavings of 3 iterators over one test (one restart each) for 12 programs with live internal state: item p and vars() of iterator j equal the solo run. (3) Every program up to 3 (thorough 4) statements of the C01/C18 alphabet: try_iter_static succeeds iff the reference's static read set is empty, and its rows (inputs, expected, line) equal 12 dynamic runs (4 answer values x 3 layouts).",
+            "H3 replaces the real RandomState order (evidence records that the raw order varies); random draws are outside the property (seed pinned).", "6/C15"),
     "C05": ("E2", "bounded-exhaustive enumeration of all row shapes (per-column entry menus incl. X, C, Z, expressions, bits) x program forms x configurations against a reference expansion",
             "Every row shape over the per-column menus, at loop depth 0/1/2 and as a repeat row, for several header/signal-list configurations (permuted header, omitted input, bidirectional split, two clocks), compared with the reference expansion: number, order and values of the executed rows, checked/unchecked kind, expected values, line, and the call kinds a write_input-overriding driver sees.",
             "Trusts refsem.rs::do_row; loop bounds are >= 1 here.", "6/C05"),
